@@ -166,7 +166,10 @@ class _Guard:
     def __exit__(self, et, ev, tb):
         if et is None:
             return False
-        if issubclass(et, (KeyboardInterrupt, SystemExit, MemoryError)):
+        if issubclass(et, (KeyboardInterrupt, SystemExit, MemoryError)) \
+                or et.__name__ == 'CaseTimeout':
+            # (CaseTimeout: the CPU-time box around the case fired; the
+            # caller discards the case -- never a verdict on the property.)
             return False
         if issubclass(et, PropertyBroken):
             self.ctx.violation(ev.kind, self.case, ev.detail, **ev.extra)
